@@ -419,7 +419,7 @@ func (rn *raNode) feed(rd raftlib.Ready) error {
 	case rn.fake.readyc <- rd:
 	case <-rn.loopEnd:
 		return fmt.Errorf("the Ready loop has ended")
-	case <-time.After(20 * time.Second):
+	case <-time.After(120 * time.Second):
 		return fmt.Errorf("the Ready loop does not take a Ready")
 	}
 	select {
@@ -427,7 +427,7 @@ func (rn *raNode) feed(rd raftlib.Ready) error {
 		return nil
 	case <-rn.loopEnd:
 		return fmt.Errorf("the Ready loop ended while handling a Ready")
-	case <-time.After(60 * time.Second):
+	case <-time.After(120 * time.Second):
 		return fmt.Errorf("the Ready loop does not finish a Ready (publishEntries blocked?)")
 	}
 }
@@ -446,7 +446,7 @@ func (rn *raNode) entryOf(idx uint64, e raEnt) (raftpb.Entry, error) {
 
 // waitWorker waits until the block factory's worker has finished the entries the last Ready published.
 func (rn *raNode) waitWorker(cond func() bool) bool {
-	deadline := time.Now().Add(4 * time.Second)
+	deadline := time.Now().Add(30 * time.Second) // generous: the machine is shared; only a broken tree runs into it
 	for time.Now().Before(deadline) {
 		if cond() {
 			return true
@@ -493,13 +493,10 @@ func (rn *raNode) apply(idx uint64, overlap uint64, what string) error {
 			defer rn.bf.ready.RUnlock()
 			return rn.bf.prevBlock == nil && rn.bf.ready.ce != nil && rn.bf.ready.ce.index == idx
 		})
-		if !ok && sentinel {
-			rn.bf.jobLock.Lock()
-			if rn.bf.prevBlock == raSentinel {
-				rn.bf.prevBlock = nil
-			}
-			rn.bf.jobLock.Unlock()
-		}
+		// (a sentinel that reset() did not clear stays where it is: the read-back then shows a previous work that the
+		// specification does not have)
+		_ = ok
+		_ = sentinel
 	case "connect", "connect-own", "replay":
 		rn.waitWorker(func() bool { return rn.rs.commitProgress.GetConnect().index == idx })
 	}
@@ -663,6 +660,8 @@ func (o *raObs) diff(s *raState) (kind string, text string) {
 		return "commit-progress", fmt.Sprintf("last connected entry %+v, specification %+v", o.Conn, s.Conn)
 	case o.Proposed != raBname(s.Proposed):
 		return "proposed", fmt.Sprintf("proposal kept by the operator %s, specification %s", o.Proposed, raBname(s.Proposed))
+	case o.PrevWork == int(raSentinel.BlockNo()):
+		return "prev-work", "the ready marker was handed to the block factory but its previous work was not reset (reset() did not run)"
 	case o.PrevWork != s.PrevWork:
 		return "prev-work", fmt.Sprintf("previous work at height %d, specification %d", o.PrevWork, s.PrevWork)
 	case o.Ready != s.Ready:
@@ -811,7 +810,19 @@ func (rn *raNode) checkRedelivery(s *raState) string {
 	return ""
 }
 
-func raRunBehaviour(b *raBehaviour, in *raInput, res *verifkit.Result, prog *raProgress, salt int64) {
+// raRes counts the violations raised (instances, not signatures) so that a broken tree does not run every behaviour
+// into its time-outs.
+type raRes struct {
+	*verifkit.Result
+	n int
+}
+
+func (r *raRes) Violate(sig map[string]interface{}, replay interface{}, format string, a ...interface{}) {
+	r.n++
+	r.Result.Violate(sig, replay, format, a...)
+}
+
+func raRunBehaviour(b *raBehaviour, in *raInput, res *raRes, prog *raProgress, salt int64) {
 	if len(b.Steps) == 0 {
 		return
 	}
@@ -1183,13 +1194,19 @@ func TestVerifRaftApply(t *testing.T) {
 		fmt.Sscanf(s, "%d/%d", &shard, &nshard)
 	}
 	only := os.Getenv("VERIF_ONLY")
+	failed := 0
+	rres := &raRes{Result: res}
 	for bi := range in.Behaviours {
 		b := &in.Behaviours[bi]
 		if (only == "" && bi%nshard != shard) || (only != "" && b.ID != only) {
 			continue
 		}
-		raRunBehaviour(b, &in, res, prog, int64(bi))
-		if res.NumViolations() >= 8 {
+		before := rres.n
+		raRunBehaviour(b, &in, rres, prog, int64(bi))
+		if rres.n > before {
+			failed++
+		}
+		if res.NumViolations() >= 8 || failed >= 6 {
 			break
 		}
 	}
